@@ -70,6 +70,26 @@ def replay_state(st):
             want = ex["corr2"][0] / ex["corr2"][1]
             if abs((2 * mc) ** 2 - want) > 1e-9:
                 bad.append(("C18.mean-correlation", where0, want, (2 * mc) ** 2))
+        # a planar cloud embedded in 3-D and padded with midpoints (points of its own hull) to more than 32 samples:
+        # the hull is the same, so the mean width for the same seed is the same; and its volume within its affine span
+        # is the exact area
+        if d == 2 and len(hist) <= 1:
+            Q = np.hstack([P, np.zeros((len(P), 1))])[:, [2, 0, 1]]
+            pad = [Q[i] / 2 + Q[j] / 2 for i in range(len(Q)) for j in range(i + 1, len(Q))]
+            k = 0
+            while len(pad) < 40:
+                pad.append((pad[k] + Q[k % len(Q)]) / 2)
+                k += 1
+            Qbig = np.vstack([Q, np.array(pad)[:40]])
+            for vec in (False, True):
+                w_small = float(dreye.compute_mean_width(Q.copy(), n=400, seed=9, vectorized=vec))
+                w_big = float(dreye.compute_mean_width(Qbig.copy(), n=400, seed=9, vectorized=vec))
+                if abs(w_big - w_small) > 1e-9 * (1 + w_small):
+                    bad.append(("C18.width-same-hull", dict(vectorized=vec, embedded="3-D", padded=len(Qbig), **where0), w_small, w_big))
+            if ex["area2"] >= 0:
+                vq = float(dreye.compute_volume(Qbig.copy()))
+                if abs(vq - ex["area2"] / 2) > 1e-7 * (1 + ex["area2"]):
+                    bad.append(("C18.volume-value", dict(embedded="3-D", padded=len(Qbig), **where0), ex["area2"] / 2, vq))
         if ex["wcoef"] >= 0 and len(hist) <= 1:
             w_exact = CD[d] * ex["wcoef"]
             wbig = float(dreye.compute_mean_width(P.copy(), n=60000, seed=5, vectorized=True))
@@ -153,6 +173,21 @@ def gamut_and_jsd(seed):
                         bad.append(("C18.estimator-gamut-range", dict(metric=metric, nrec=len(A), kk=kk), "(0,1]", [float(g0), float(g)]))
                     if abs(g - g0) > 1e-12:
                         bad.append(("C18.estimator-gamut-range", dict(metric=metric, nrec=len(A), kk=kk, kind="changed-by-a-query"), float(g0), float(g)))
+            # the estimator's gamut is the gamut metric of its achievable set {A x : lb <= x <= ub}: with positive lower
+            # bounds too (corner cloud enumerated here), relative to the captures of ideal (single-wavelength) lights
+            import itertools
+            if len(A) >= 3:
+                for lbq in ([0] * len(A[0]), [1] * len(A[0]), [2] + [0] * (len(A[0]) - 1)):
+                    sysl = dict(A=A, D=4, lb=lbq, ub=[4] * len(A[0]), kk="none", Kn=np.eye(len(A)).astype(int).tolist(), DK=1, bk="none", bl=[0] * len(A))
+                    est = dsys.make_estimator(dreye, sysl)
+                    corners = np.array(list(itertools.product(*[(l / 4, 1.0) for l in lbq]))) @ np.array(A, float).T
+                    ideal = np.asarray(est.capture(np.eye(est.filters.shape[1])), float)
+                    for metric in ("width", "volume"):
+                        for frac in (True, False):
+                            g = est.compute_gamut(relative=False, metric=metric, seed=2, fraction=frac)
+                            want = dreye.compute_gamut(corners, relative_to=(ideal if frac else None), center_to_neutral=False, center=True, metric=metric, seed=2)
+                            if abs(g - want) > 1e-9 * (1 + abs(want)):
+                                bad.append(("C18.estimator-gamut-definition", dict(metric=metric, nrec=len(A), fraction=frac, lbpos=any(lbq)), float(want), float(g)))
     except Exception as ex:
         bad.append(("C18.no-error", dict(exc=type(ex).__name__, op="estimator.compute_gamut"), None, repr(ex)[:200]))
     # Jensen-Shannon
